@@ -512,6 +512,9 @@ func splitNonEscaped(s string, sep byte) []string {
 // getMatch parses the passed url and tries to match it against the route segments and determine the parameter positions
 func (parser *routeParser) getMatch(detectionPath, path string, params *[maxParams]string, partialCheck bool) bool { //nolint:revive // Accepting a bool param is fine here
 	var i, paramsIterator, partLen int
+	// values are handed over only when the whole pattern matched: a failed attempt must not disturb
+	// the values of the route whose handler is running (a middleware reading Params after c.Next())
+	var found [maxParams]string
 	for _, segment := range parser.segs {
 		partLen = len(detectionPath)
 		// check const segment
@@ -531,12 +534,12 @@ func (parser *routeParser) getMatch(detectionPath, path string, params *[maxPara
 				return false
 			}
 			// take over the params positions
-			params[paramsIterator] = path[:i]
+			found[paramsIterator] = path[:i]
 
 			if !(segment.IsOptional && i == 0) {
 				// check constraint
 				for _, c := range segment.Constraints {
-					if matched := c.CheckConstraint(params[paramsIterator]); !matched {
+					if matched := c.CheckConstraint(found[paramsIterator]); !matched {
 						return false
 					}
 				}
@@ -553,6 +556,7 @@ func (parser *routeParser) getMatch(detectionPath, path string, params *[maxPara
 	if detectionPath != "" && !partialCheck {
 		return false
 	}
+	copy(params[:paramsIterator], found[:paramsIterator])
 
 	return true
 }
